@@ -771,6 +771,10 @@ def rule_R30_and_then(text, log):
         j = clo.index('|', 1)
         pat = clo[1:j].strip()
         body = clo[j + 1:].strip()
+        # a typed closure parameter (`|x: T|`, or `|_vx_u: ()|` from the unit-pattern rewrite) is a plain binding in a match arm
+        mt = re.match(r'^(_?[A-Za-z]\w*)\s*:\s*.+$', pat)
+        if mt:
+            pat = mt.group(1)
         rs = _recv_start(out, mask, mm.start())
         recv = out[rs:mm.start()]
         if _r30_is_option(out, mask, rs, recv):
@@ -877,6 +881,40 @@ def rule_R34_map_err_closure(text, log):
         new = '(match %s { Ok(vx_v) => Ok(vx_v), Err(%s) => Err(%s) })' % (recv.strip(), pat, body)
         pad = '\n' * max(0, out[rs:cl + 1].count('\n') - new.count('\n'))
         log.append(('R34', norm_ws(out[rs:cl + 1])[:120], norm_ws(new)[:160]))
+        out = out[:rs] + new + pad + out[cl + 1:]
+        pos = rs + 1
+
+
+def rule_R35_option_filter(text, log):
+    """`OPT.filter(|P| B)` -> `(match OPT { Some(vx_f) => if { let P = &vx_f; B } { Some(vx_f) } else { None }, None => None })`
+    (definition of Option::filter; receivers that are iterator chains are left alone)"""
+    out = text
+    rx = re.compile(r'\.\s*filter\s*\(\s*\|')
+    pos = 0
+    while True:
+        mask = code_mask(out)
+        mm = next((m for m in rx.finditer(out) if m.start() >= pos and mask[m.start()]), None)
+        if not mm:
+            return out
+        op = out.index('(', mm.start())
+        cl = match_brace(out, mask, op)
+        rs = _recv_start(out, mask, mm.start())
+        recv = out[rs:mm.start()]
+        after = out[cl + 1:cl + 40]
+        if re.search(r'\.\s*(iter|into_iter|iter_mut|drain|chars|bytes|split\w*|map|enumerate|rev|skip|take|zip|chain|copied|cloned|keys|values)\s*\([^()]*\)\s*$', recv) or re.match(r'\s*\.\s*(count|map|collect|next|any|all|for_each|sum|last|nth|fold)\b', after):
+            pos = mm.end()
+            continue
+        try:
+            pat, body = _closure_parts(out[op + 1:cl])
+        except Unsupported:
+            pos = mm.end()
+            continue
+        if pat is None:
+            pos = mm.end()
+            continue
+        new = '(match %s { Some(vx_f) => if { let %s = &vx_f; %s } { Some(vx_f) } else { None }, None => None })' % (recv.strip(), pat, body)
+        pad = '\n' * max(0, out[rs:cl + 1].count('\n') - new.count('\n'))
+        log.append(('R35', norm_ws(out[rs:cl + 1])[:120], norm_ws(new)[:160]))
         out = out[:rs] + new + pad + out[cl + 1:]
         pos = rs + 1
 
@@ -1421,7 +1459,7 @@ class Unit(object):
         self.lost_aids = []
         self.gone_fns = []
         self.late_hints = False
-        self.rules = set(['R1', 'R2', 'ATTR', 'R4', 'R5', 'R6', 'R10', 'R11', 'R14', 'R15', 'R17', 'R22', 'R23', 'R25', 'R26', 'R27', 'R28', 'R29', 'R30', 'R33'])
+        self.rules = set(['R1', 'R2', 'ATTR', 'R4', 'R5', 'R6', 'R10', 'R11', 'R14', 'R15', 'R17', 'R22', 'R23', 'R25', 'R26', 'R27', 'R28', 'R29', 'R30', 'R33', 'R35'])
         self.unit_props = []
         self.lemmas = []
         self.tmpl_fns = []          # hand-written exec/proof fns in template (name, props)
@@ -1503,6 +1541,8 @@ class Unit(object):
                 text = rule_R30_and_then(text, log)
             if 'R33' in self.rules:
                 text = rule_R33_cmp_min_max(text, log)
+            if 'R35' in self.rules:
+                text = rule_R35_option_filter(text, log)
             if 'R34' in self.rules:
                 text = rule_R34_map_err_closure(text, log)
             if 'R31' in self.rules:
@@ -2175,6 +2215,7 @@ def emit_block(unit, loc, dlines, tmpl_where):
     name = None
     sig = None
     fall = ''
+    eager = False
     substs = []
     iter_quants = []
     rest = []
@@ -2186,6 +2227,10 @@ def emit_block(unit, loc, dlines, tmpl_where):
             sig = st[3:].strip()
         elif re.match(r'^ ?\S', raw) and st.split()[0] == 'fallthrough':
             fall = re.match(r'fallthrough\s+`(.*)`\s*$', st).group(1)
+        elif re.match(r'^ ?\S', raw) and st.split()[0] == 'eager':
+            # the range must run when the function is *called*: the function is not an `async fn` and the range does not sit
+            # inside an `async` block (whose body runs only when the returned future is first polled)
+            eager = True
         elif re.match(r'^ ?\S', raw) and st.split()[0] == 'iter_quant':
             m3 = re.match(r'iter_quant\s+`(.*)`\s+elem\s+`(.*)`\s+spec\s+`(.*)`\s*$', st)
             if not m3:
@@ -2220,6 +2265,26 @@ def emit_block(unit, loc, dlines, tmpl_where):
                     b_txt = body[ma.end() + mbf_.start():ma.end() + mbf_.end()]
             except AnchorLost:
                 pass
+    if eager:
+        header = src[it.start:it.body_start]
+        hm = code_mask(header)
+        deferred = any(hm[m_.start()] for m_ in re.finditer(r'\basync\s+(?:unsafe\s+)?fn\b', header))
+        if not deferred:
+            # inside an `async {}` / `async move {}` block that is still open at the start of the range?
+            for m_ in re.finditer(r'\basync\s+(?:move\s+)?\{', body[:ma.start()]):
+                if bmask[m_.start()]:
+                    ob_ = m_.end() - 1
+                    if match_brace(body, bmask, ob_) >= ma.start():
+                        deferred = True
+        if deferred:
+            # the claim "these statements run when the function is called" is false whatever the rest of the range looks like:
+            # a function of its own that states it (the other clauses of the block are not checked on this tree)
+            unit.rule_log.append({'rule': 'EAGER', 'before': 'fn %s' % ' :: '.join(path), 'after': 'the range is deferred to the first poll of the returned future', 'where': rel})
+            line0 = line_of(src, it.body_start + ma.start())
+            text = 'fn %s() { let ghost vx_these_statements_run_when_the_function_is_called_not_when_its_future_is_first_polled = false; assert(vx_these_statements_run_when_the_function_is_called_not_when_its_future_is_first_polled); }' % name
+            keep = [l_ for l_ in rest if l_.strip().split()[:1] == ['props']]
+            emit_fn_text(unit, rel, path + ['block ' + name], name, text, line0, line0, keep, tmpl_where)
+            return
     if blk_renames:
         def _brn(t):
             for a_, b_ in blk_renames.items():
